@@ -288,7 +288,9 @@ func (t *Dense) TensorMul(other Tensor, axesA, axesB []int) (retVal *Dense, err 
 	newAxesB := BorrowInts(len(notins) + len(axesB))
 	defer ReturnInts(newAxesB)
 	newAxesB = newAxesB[:0]
-	newAxesB = append(axesB, notins...)
+	// not append(axesB, notins...): that writes into the spare capacity of the caller's slice
+	newAxesB = append(newAxesB, axesB...)
+	newAxesB = append(newAxesB, notins...)
 
 	newShapeO := Shape(BorrowInts(2))
 	defer ReturnInts(newShapeO)
